@@ -389,4 +389,46 @@ func TestVerifStress(t *testing.T) {
 			}
 		}
 	}
+	// simultaneous release: k owners of one handle let go at the same moment
+	// (spin barrier), so the last decrements race each other
+	fset, _ := fileseq.NewFrameSet("1-10")
+	seq, _ := fileseq.NewFileSequence("/a/foo.1-10#.exr")
+	for round := 0; round < 4000; round++ {
+		k := 2 + (round+seed)%3
+		len0s, len0q := sFrameSets.Len(), sFileSeqs.Len()
+		fid, qid := sFrameSets.Add(*fset), sFileSeqs.Add(seq)
+		for i := 1; i < k; i++ {
+			sFrameSets.Incref(fid)
+			sFileSeqs.Incref(qid)
+		}
+		var ready, start int32
+		var wg sync.WaitGroup
+		for i := 0; i < k; i++ {
+			wg.Add(1)
+			go func(i int) {
+				defer wg.Done()
+				atomic.AddInt32(&ready, 1)
+				for atomic.LoadInt32(&start) == 0 {
+				}
+				if i%2 == 0 {
+					sFrameSets.Decref(fid)
+					sFileSeqs.Decref(qid)
+				} else {
+					sFileSeqs.Decref(qid)
+					sFrameSets.Decref(fid)
+				}
+			}(i)
+		}
+		for atomic.LoadInt32(&ready) != int32(k) {
+			runtime.Gosched()
+		}
+		atomic.StoreInt32(&start, 1)
+		wg.Wait()
+		_, okS := sFrameSets.Get(fid)
+		_, okQ := sFileSeqs.Get(qid)
+		if okS || okQ || sFrameSets.Len() != len0s || sFileSeqs.Len() != len0q {
+			t.Fatalf("simultaneous release, round %d: all %d references released, but the handles still resolve (%v/%v) or the live counts are %d/%d instead of %d/%d",
+				round, k, okS, okQ, sFrameSets.Len(), sFileSeqs.Len(), len0s, len0q)
+		}
+	}
 }
